@@ -7,7 +7,7 @@ PROP = "C18"
 
 
 def s_jobs(tier):
-    t = 200 if tier == "quick" else 900
+    t = 360 if tier == "quick" else 900
     return [chrun.SJob("vlib.sh.c18a", "c18a", base.parts(24), t,
                        what="simplify_chained_calls on a literal projection in 4 positions (direct, after Select-Select fusion, behind First(), inside a Where "
                             "predicate over a packaged Select) x 5 container kinds (tuple, list, dict with str keys, dict with int keys, dict with a symbolic key); "
